@@ -11,8 +11,11 @@ package main
 // The acquire/release pairing of every client is read off this table (C04/GenTie.lean).
 
 import (
+	"bytes"
 	"fmt"
 	"go/ast"
+	"go/printer"
+	"go/token"
 	"os"
 	"path/filepath"
 	"sort"
@@ -153,7 +156,105 @@ func genUsagePoolClients() string {
 		out = append(out, fmt.Sprintf("  (%q, %q, %q, %q, [%s])", filepath.ToSlash(r.file), r.fn, r.pool, r.method, strings.Join(gs, ", ")))
 	}
 	sb.WriteString(strings.Join(out, ",\n"))
-	sb.WriteString("\n]\n")
+	sb.WriteString("\n]\n\n")
+	sb.WriteString(genDynamicUpstreamPairing())
 	sb.WriteString(footer)
+	return sb.String()
+}
+
+func stmtText(fset *token.FileSet, n ast.Node) string {
+	var b bytes.Buffer
+	printer.Fprint(&b, fset, n)
+	return strings.Join(strings.Fields(b.String()), "")
+}
+
+// genDynamicUpstreamPairing: the per-request client of the hosts pool, Handler.proxyLoopIteration
+// (modules/caddyhttp/reverseproxy/reverseproxy.go). Acquire and release are paired per ELEMENT of one slice: the
+// loop that calls provisionUpstream and the deferred loop that calls hosts.Delete range over the same variable, the
+// provisioning loop does nothing but provision, and nothing else writes to that slice or its elements.
+func genDynamicUpstreamPairing() string {
+	fset, f := parseFile("modules/caddyhttp/reverseproxy/reverseproxy.go")
+	provRange, relRange, relArg := "", "", ""
+	var provBody, writes []string
+	if f != nil {
+		for _, d := range f.Decls {
+			fd, ok := d.(*ast.FuncDecl)
+			if !ok || fd.Body == nil || fd.Name.Name != "proxyLoopIteration" {
+				continue
+			}
+			containsCall := func(n ast.Node, pred func(*ast.CallExpr) bool) bool {
+				found := false
+				ast.Inspect(n, func(c ast.Node) bool {
+					if ce, ok := c.(*ast.CallExpr); ok && pred(ce) {
+						found = true
+					}
+					return !found
+				})
+				return found
+			}
+			isProvision := func(ce *ast.CallExpr) bool {
+				se, ok := ce.Fun.(*ast.SelectorExpr)
+				return ok && se.Sel.Name == "provisionUpstream"
+			}
+			isRelease := func(ce *ast.CallExpr) bool {
+				se, ok := ce.Fun.(*ast.SelectorExpr)
+				if !ok || se.Sel.Name != "Delete" {
+					return false
+				}
+				id, ok := se.X.(*ast.Ident)
+				return ok && id.Name == "hosts"
+			}
+			ast.Inspect(fd.Body, func(n ast.Node) bool {
+				rs, ok := n.(*ast.RangeStmt)
+				if !ok {
+					return true
+				}
+				if containsCall(rs.Body, isProvision) && provRange == "" {
+					provRange = exprText(rs.X)
+					for _, st := range rs.Body.List {
+						provBody = append(provBody, stmtText(fset, st))
+					}
+				}
+				if containsCall(rs.Body, isRelease) && relRange == "" {
+					relRange = exprText(rs.X)
+					ast.Inspect(rs.Body, func(c ast.Node) bool {
+						if ce, ok := c.(*ast.CallExpr); ok && isRelease(ce) && len(ce.Args) == 1 {
+							relArg = exprText(ce.Args[0])
+						}
+						return true
+					})
+				}
+				return true
+			})
+			// every statement that writes to the ranged-over slice or one of its elements
+			ast.Inspect(fd.Body, func(n ast.Node) bool {
+				as, ok := n.(*ast.AssignStmt)
+				if !ok {
+					return true
+				}
+				for _, lhs := range as.Lhs {
+					base := lhs
+					if ix, ok := lhs.(*ast.IndexExpr); ok {
+						base = ix.X
+					}
+					if id, ok := base.(*ast.Ident); ok && provRange != "" && id.Name == provRange {
+						writes = append(writes, stmtText(fset, as))
+						break
+					}
+				}
+				return true
+			})
+		}
+	}
+	q := func(l []string) string {
+		var o []string
+		for _, x := range l {
+			o = append(o, fmt.Sprintf("%q", x))
+		}
+		return "[" + strings.Join(o, ", ") + "]"
+	}
+	var sb strings.Builder
+	sb.WriteString("/-- reverseproxy.go Handler.proxyLoopIteration, the per-request client of the hosts pool: (the slice the\n    provisioning loop ranges over, the statements of that loop's body, the slice the deferred release loop ranges\n    over, the argument of hosts.Delete there, every assignment to that slice or to one of its elements) -/\n")
+	sb.WriteString(fmt.Sprintf("def dynamicUpstreamPairing : String × List String × String × String × List String :=\n  (%q, %s, %q, %q, %s)\n", provRange, q(provBody), relRange, relArg, q(writes)))
 	return sb.String()
 }
